@@ -203,9 +203,10 @@ fn check_state<K: Kernel<D, Scalar = f64>, const D: usize>(rep: &Report, cn: &Cn
             }
         }
         // the answer class does not depend on the hint
-        let inside_classes: Vec<bool> = classes.iter().filter(|(_, c)| *c != "Err").map(|(_, c)| *c != "Outside").collect();
-        if inside_classes.iter().any(|b| *b) && inside_classes.iter().any(|b| !*b) {
-            rep.violation(Finding { signature: json!({"check": "hint_dependent_class", "D": D}), description: format!("locate({q:?}) answers Inside with some hints and Outside with others: {classes:?}"), replay: replay("*", json!(null)) });
+        // (three classes: a containing cell is returned / OnVertex, which names no cell / Outside)
+        let distinct: std::collections::BTreeSet<&str> = classes.iter().filter(|(_, c)| *c != "Err").map(|(_, c)| *c).collect();
+        if distinct.len() > 1 {
+            rep.violation(Finding { signature: json!({"check": "hint_dependent_class", "D": D, "classes": distinct.iter().collect::<Vec<_>>()}), description: format!("locate({q:?}) gives answers of different classes depending on the hint: {classes:?}"), replay: replay("*", json!(null)) });
         }
     }
 }
